@@ -8,11 +8,12 @@ import Mathlib.Tactic.Ring
 import Mathlib.Analysis.Real.Sqrt
 /-! # C16 — simplification keeps the end points, only drops fixes, and honours its tolerance
 
-Property theorems only (helper lemmas: `Lemmas/Simplify.lean`, `Lemmas/SimplifyVw.lean`, `Lemmas/SimplifyTrack.lean`,
-scalar-independent, and `Lemmas/SimplifyGeom.lean`, `Lemmas/SimplifyVwOrd.lean`, ordered field). Two models:
+Property theorems only (helper lemmas: `Lemmas/Simplify.lean`, `Lemmas/SimplifyVw.lean`, `Lemmas/SimplifyVwAll.lean`,
+`Lemmas/SimplifyVwAny.lean`, `Lemmas/SimplifyTrack.lean`, scalar-independent; `Lemmas/SimplifyOrd.lean`, `Lemmas/SimplifyVwOrd.lean`,
+total order with arbitrary arithmetic; `Lemmas/SimplifyGeom.lean`, ordered field). Two models:
 `Model/Simplify.lean` — `douglas_peucker`, `visvalingam` (algo/simplification.py) on the list of positions,
-`distance_to_segment`, `triangle_area`, `aire_visval` (util/geometry.py), `Operator.ARGMIN`, as the code is after ec611a5
-and 1a5eeec — and `Model/SimplifyTrack.lean` — the same two functions and the dispatcher `simplify(track, tolerance, mode)`
+`distance_to_segment`, `triangle_area`, `aire_visval` (util/geometry.py), `Operator.ARGMIN`, as the code is after ec611a5,
+1a5eeec, 68863c7 and b704eae — and `Model/SimplifyTrack.lean` — the same two functions and the dispatcher `simplify(track, tolerance, mode)`
 on the `Track` **object**: feature rows of the observations, feature dict, `uid`/`tid`/`base`, the temporary `'@aire'`
 column, `Track.__add__` and `removeObs` of C04. T8/T9 tie the second to the first. The same file models the attribute
 `no_data_value` that the readers set (`simplifyN`: never read; `None` on a Douglas–Peucker result, copied by Visvalingam) and
